@@ -2,7 +2,7 @@
 
 _FULL = '{"a", "b", "", ".", "..", "%2e%2e", "%2E.", "..%2f", "%2f", "a;p", "%252e%252e"}'
 _DOTS = '{"a", "..", "%2e%2e", "%2E.", "..%2f"}'
-_DEEP = '{"a", "", "%2e%2e", "%2E.", "..%2f", "%252e%252e"}'
+_DEEP = '{"a", "", "%2e%2e", "..%2f", "%252e%252e"}'
 _FEW = '{"a", "%2e%2e", "a;p"}'
 _ALLB = '{"none", "root", "base", "nested"}'
 _Q1 = '"x=1&y=%2F..%2F"'
@@ -30,7 +30,8 @@ _G_FORMS = _g(Alphabet=_FEW, MaxLen=1, Prefixes=_PFX, Forms='{"origin", "absolut
               Queries='{"", %s}' % _Q1)
 
 _T_SEQ3 = _g(MaxLen=3, Prefixes=_PFX)
-_T_DEEP4 = _g(Alphabet=_DEEP, MaxLen=4, BaseIds='{"base", "nested"}', Engines='{"olla"}')
+_T_SEQ4 = _g(MaxLen=4)
+_T_DEEP5 = _g(Alphabet=_DEEP, MaxLen=5, BaseIds='{"base", "nested"}', Engines='{"olla"}')
 _T_FORMS = _g(MaxLen=2, Prefixes=_PFX, Forms='{"origin", "absolute", "netpath"}',
               Queries='{"", %s, %s}' % (_Q1, _Q2))
 
@@ -61,7 +62,7 @@ def register(PROPS, HARNESS_PKGS):
             "name": "urlpath",
             "mc": [{"module": "UrlPath", "cfg": "UrlPath_mc.cfg", "quick_params": {"MaxLen": 3}, "thorough_params": {"MaxLen": 4}}],
             "quick": {"gen": [_G_CFG, _G_SEQ2, _G_DOTS3, _G_FORMS]},
-            "thorough": {"gen": [_G_CFG, _T_SEQ3, _T_DEEP4, _T_FORMS]},
+            "thorough": {"gen": [_G_CFG, _T_SEQ3, _T_SEQ4, _T_DEEP5, _T_FORMS]},
             "pkg": "internal/app", "test": "TestVerif_UrlPath",
             "harness_dirs": ["app"],
             "harness_files": ["stack_test.go", "urlpath_test.go"],
